@@ -11,6 +11,9 @@ import (
 
 type AllOf struct {
 	schemaName []string
+
+	// isArray indicates the rule value is written as an array.
+	isArray bool
 }
 
 var (
@@ -49,6 +52,12 @@ func (c *AllOf) Append(scalar bytes.Bytes) {
 	c.schemaName = append(c.schemaName, s.String())
 }
 
+// WrittenAsArray marks the rule value as written in the array form, so a list of
+// one name isn't represented as a scalar.
+func (c *AllOf) WrittenAsArray() {
+	c.isArray = true
+}
+
 func (c AllOf) SchemaNames() []string {
 	return c.schemaName
 }
@@ -56,7 +65,7 @@ func (c AllOf) SchemaNames() []string {
 func (c AllOf) ASTNode() jschema.RuleASTNode {
 	const source = jschema.RuleASTNodeSourceManual
 
-	if len(c.schemaName) == 1 {
+	if len(c.schemaName) == 1 && !c.isArray {
 		return newRuleASTNode(jschema.TokenTypeShortcut, c.schemaName[0], source)
 	}
 
